@@ -18,7 +18,9 @@ oracle: no Lean.  Real templates are rendered with NON-COMMUTING tagging filters
         from a module-level import; a str subclass makes `str` visible) at the same ten sites and the output is
         compared with the composition the property text documents, computed here from the documented functions;
         every built-in flag is rendered with strict_undefined off and on (both must give the documented text); a
-        bytes value shows that D runs first; the implementation's scanner is compared with a Python twin of the
+        bytes value shows that D runs first; filter calls whose arguments come from an expression grammar are rendered
+        with a recording filter and compared with the arguments evaluated as written (and the re-emitted entry with
+        the written one, as ASTs); the implementation's scanner is compared with a Python twin of the
         lexical specification on every enumerated string; generated expressions are lexed and rendered by the real
         code and compared with the generator's ground truth (Expression(text, escapes) and the evaluated value).
 """
@@ -47,6 +49,13 @@ RULE = ("pipeline: filter lists of 0-4 entries over {h,x,u,trim,entity,str,unico
         "sample of 3-4-filter lists. Oracle: the same sites on smaller list sets; every list of <=2 entries plus four "
         "decode.<enc> variants at every site x strict_undefined off/on; 200 bytes-valued cases. Non-trivial = at least two "
         "pipeline sources contribute or `n` is present; distinct = distinct (site, D, P, B, list). "
+        "filter-call arguments: entries R(args) with 1-3 int-valued argument expressions drawn from a grammar over context "
+        "names (+ - * | & ^ << **, and/or/not, - ~, comparisons, conditional expressions, immediately-called lambdas, "
+        ".real/.bit_length(), subscripts of (l or m) and of tuples, max/abs, keyword, *args and **kwargs), written with minimal "
+        "or explicit parentheses; 240 (thorough 6000) of them alone or next to h/trim/n/f at the five basic sites "
+        "(correspondence + rendering with the recording filter R), 10000 (thorough 200000) through ArgumentList alone "
+        "(re-emitted text vs written text as ASTs and as evaluated arguments); non-trivial = dropping the author's "
+        "parentheses would change the arguments. "
         "context names / regexes: filter lists vs undeclared_identifiers at 4 node kinds; every string of <=4 (thorough 5) "
         "tokens over 16 regex-relevant tokens through splitCall/resolve. "
         "scanner: every concatenation of <=k tokens over { } ( ) [ ] | ' \" ''' \"\"\" \\ # \\n a (quick k=4 for both "
